@@ -47,15 +47,18 @@ Definition has_via (hs : list hdr) : bool := existsb is_via hs.
 (* HttpHeader::getList(VIA): strListAdd(&s, e->value.termedBuf(), ',') for every Via entry, in order *)
 Definition via_value (hs : list hdr) : bytes := str_list_add_all [] (map h_value (filter is_via hs)).
 
-(* clientInterpretRequestHeaders:
-     if (req_hdr->has(VIA)) { String s = req_hdr->getList(VIA); if (strListIsSubstr(&s, ThisCache2, ',')) loopDetected = true; }
-   String::pos() returns NULL for an undefined (empty) String whatever the needle *)
-Definition loop_detected (c : cfg) (hs : list hdr) : bool :=
-  has_via hs &&
-  match via_value hs with
+(* strListIsSubstr(list, s, del) = (list->find(s) != npos); String::pos() returns NULL for an undefined (empty)
+   String whatever the needle, otherwise strstr(termedBuf(), s) *)
+Definition str_list_is_substr (lst needle : bytes) : bool :=
+  match lst with
   | [] => false
-  | s => is_substr (c_str (this_cache2 c)) s
+  | _ => is_substr (c_str needle) lst
   end.
+
+(* clientInterpretRequestHeaders:
+     if (req_hdr->has(VIA)) { String s = req_hdr->getList(VIA); if (strListIsSubstr(&s, ThisCache2, ',')) loopDetected = true; } *)
+Definition loop_detected (c : cfg) (hs : list hdr) : bool :=
+  has_via hs && str_list_is_substr (via_value hs) (this_cache2 c).
 
 (* ---------- httpHeaderParseOffset = strtoll(start, &end, 10) + checks ---------- *)
 Definition c_isspace (ch : N) : bool := tbl_get false c_isspace_tbl ch.
